@@ -106,6 +106,7 @@ Section Net.
         | ETick _ sy | ETickSF _ sy => served sy
         | ERestart sy => served sy
         | ETransition _ g' => g_thr g' =? thr_of (g_poly g')
+        | ESynced _ bs => served (Some bs)
         | _ => false
         end
     | GDeliver j w => existsb (wire_eqb w) (y_pool y)
